@@ -469,36 +469,40 @@ theorem select_reach (s : Selecting) (sh : Shared D L) (n : Nat) :
     · trivial
     · trivial
   dsimp only
+  -- the bounds check `offset >= candidates.len()` (F04/C07 fixes): panic / fuel / listed
   split
   · trivial
+  · trivial
   · split
-    · -- phrase
-      split
-      · split
+    · exact Reach.refl _
+    · split
+      · -- phrase
+        split
         · split
-          · rename_i com hq
-            show Reach sh.com (if sh.options.autoShiftCursor = true then com.popCursor.moveRight else com.popCursor)
-            split
-            · exact ((Reach.select hq).trans (Reach.popCursor _)).trans (Reach.moveRight _)
-            · exact (Reach.select hq).trans (Reach.popCursor _)
-          · trivial
-          · trivial
+          · split
+            · rename_i com hq
+              show Reach sh.com (if sh.options.autoShiftCursor = true then com.popCursor.moveRight else com.popCursor)
+              split
+              · exact ((Reach.select hq).trans (Reach.popCursor _)).trans (Reach.moveRight _)
+              · exact (Reach.select hq).trans (Reach.popCursor _)
+            · trivial
+            · trivial
+          · exact Reach.refl _
+        · trivial
+        · trivial
+      · -- symbol
+        split
+        · rename_i sym y' hq
+          exact OutAll.map (hfin sh sym rfl)
         · exact Reach.refl _
-      · trivial
-      · trivial
-    · -- symbol
-      split
-      · rename_i sym y' hq
-        exact OutAll.map (hfin sh sym rfl)
-      · exact Reach.refl _
-      · trivial
-      · trivial
-    · -- special
-      split
-      · exact hfin sh _ rfl
-      · exact Reach.refl _
-      · trivial
-      · trivial
+        · trivial
+        · trivial
+      · -- special
+        split
+        · exact hfin sh _ rfl
+        · exact Reach.refl _
+        · trivial
+        · trivial
 
 theorem rsel_selDigit (s : Selecting) (sh : Shared D L) (c : Nat) : RSel sh.com (selDigit env s sh c) := by
   unfold selDigit
